@@ -7,12 +7,12 @@ set -e
 cd /verif
 COV=/tmp/verif_cov; rm -rf $COV; mkdir -p $COV/prof
 BIN=$HOME/.rustup/toolchains/nightly-x86_64-unknown-linux-gnu/lib/rustlib/x86_64-unknown-linux-gnu/bin
-(cd harness && CARGO_NET_OFFLINE=true RUSTFLAGS="-C instrument-coverage" cargo +nightly build --offline --target-dir $COV/target 2>&1 | tail -1)
+(cd harness && LLVM_PROFILE_FILE=$COV/build-%p.profraw CARGO_NET_OFFLINE=true RUSTFLAGS="-C instrument-coverage" cargo +nightly build --offline --target-dir $COV/target 2>&1 | tail -1)
 PROPS="$@"; [ -z "$PROPS" ] && PROPS="C01 C02 C03 C04 C05 C06 C07 C08 C09 C10 C11 C12 C13 C14 C15 C16 C17 C18 C19 C20"
 for p in $PROPS; do
   VERIF_HARNESS_BIN=$COV/target/debug/harness LLVM_PROFILE_FILE="$COV/prof/$p-%p-%m.profraw" ./check $p --tier ${TIER:-quick} 2>&1 | grep -E "VIOLATION|quick:|thorough:|FAILED" | cut -c1-160
 done
-$BIN/llvm-profdata merge -sparse $COV/prof/*.profraw -o $COV/all.profdata
+rm -f /repo/*.profraw; $BIN/llvm-profdata merge -sparse $COV/prof/*.profraw -o $COV/all.profdata
 mkdir -p work/coverage
 $BIN/llvm-cov report $COV/target/debug/harness -instr-profile=$COV/all.profdata --ignore-filename-regex='(\.cargo|rustc|harness/src)' > work/coverage/summary.txt 2>/dev/null
 $BIN/llvm-cov show $COV/target/debug/harness -instr-profile=$COV/all.profdata --ignore-filename-regex='(\.cargo|rustc|harness/src)' --show-line-counts-or-regions > work/coverage/show.txt 2>/dev/null
